@@ -268,3 +268,12 @@ Definition process_resend (f : row -> bool) (begin_s end_s : option str) (s : st
   match end_s with None => (s, Some ETagNotFound) | Some es =>
   match py_int es with None => (s, Some EValue) | Some e0 => resend_body f (clamp1 b) e0 s
   end end end end.
+
+(* the call site in _process_message:
+       try:     await self._process_resend(msg)
+       finally: if self._connection_state == RESENDREQ_HANDLING: await self._state_set(ACTIVE)
+   (a request that could not be served does not leave the connection in RESENDREQ_HANDLING; the
+   exception still reaches the dispatcher's `except Exception`, which logs and swallows it) *)
+Definition serve_resend (f : row -> bool) (begin_s end_s : option str) (s : st) : st * option exc :=
+  let (s', x) := process_resend f begin_s end_s s in
+  (if cstate s' =? ST_HANDLING then state_set ST_ACTIVE s' else s', x).
